@@ -23,6 +23,7 @@ import RosuModel.Model.SliderEventsWire
 import RosuModel.Model.ManiaPatternWire
 import RosuModel.Model.ConvOsuWire
 import RosuModel.Model.ConvCatchWire
+import RosuModel.Model.PipelineCatchWire
 import RosuModel.Model.SkillWire
 import RosuModel.Model.TaikoPreWire
 
@@ -99,6 +100,8 @@ def handle (line : String) : String :=
   | ["LTT", start, dur, ns] => ConvOsu.Wire.handleLTT start dur ns
   | ["CCONV", hr, refl, objs] => ConvCatch.Wire.handleCCONV hr refl objs
   | ["TKPRE", clock, take, objs] => TaikoPre.handleTKPRE clock take objs
+  | ["PIPE", "catch", version, sm, tr, hr, refl, cs, ar, clock, conv, take, gidx, objs] =>
+    PipelineCatch.Wire.handlePIPEC version sm tr hr refl cs ar clock conv take gidx objs
   | _ => "bad-op"
 
 partial def loop (h : IO.FS.Stream) (out : IO.FS.Stream) : IO Unit := do
